@@ -19,7 +19,15 @@ const Kinds = 43
 
 type Gen struct {
 	Profile int
+	Deep    bool // thorough tier: collections of up to 3 entries, payloads of 4 symbolic bytes
 	n       int
+}
+
+func (g *Gen) max(m int) int {
+	if g.Deep {
+		return m + 1
+	}
+	return m
 }
 
 func (g *Gen) pick() int {
@@ -75,6 +83,9 @@ func (g *Gen) Str(l string) string {
 
 func (g *Gen) Bytes(l string) []byte {
 	if g.Profile < 0 {
+		if g.Deep {
+			return vf.BytesN(g.lbl(l), 4)
+		}
 		return vf.BytesN(g.lbl(l), 2)
 	}
 	switch g.pick() {
@@ -167,7 +178,7 @@ func (g *Gen) DataID(l string) *message.DataID {
 }
 
 func (g *Gen) DataIDs(l string) []*message.DataID {
-	n := g.N(l+".n", 2)
+	n := g.N(l+".n", g.max(2))
 	if n == 0 {
 		return nil
 	}
@@ -180,15 +191,15 @@ func (g *Gen) DataIDs(l string) []*message.DataID {
 
 func (g *Gen) keys(l string, n int) []uint32 {
 	if g.Profile < 0 {
-		ks := []uint32{vf.U32(g.lbl(l + ".k0")), vf.U32(g.lbl(l + ".k1"))}
-		vf.Assume(ks[0] != ks[1])
+		ks := []uint32{vf.U32(g.lbl(l + ".k0")), vf.U32(g.lbl(l + ".k1")), vf.U32(g.lbl(l + ".k2"))}
+		vf.Assume(ks[0] != ks[1] && ks[0] != ks[2] && ks[1] != ks[2])
 		return ks[:n]
 	}
-	return []uint32{1, 0xffffffff}[:n]
+	return []uint32{1, 0xffffffff, 128}[:n]
 }
 
 func (g *Gen) DataIDAliases(l string) map[uint32]*message.DataID {
-	n := g.N(l+".n", 2)
+	n := g.N(l+".n", g.max(2))
 	if n == 0 {
 		return nil
 	}
@@ -200,7 +211,7 @@ func (g *Gen) DataIDAliases(l string) map[uint32]*message.DataID {
 }
 
 func (g *Gen) Filters(l string) []*message.DownstreamFilter {
-	n := g.N(l+".n", 2)
+	n := g.N(l+".n", g.max(2))
 	if n == 0 {
 		return nil
 	}
@@ -217,7 +228,7 @@ func (g *Gen) Filters(l string) []*message.DownstreamFilter {
 
 func (g *Gen) Chunk(l string) *message.StreamChunk {
 	c := &message.StreamChunk{SequenceNumber: g.U32(l + ".seq")}
-	n := g.N(l+".groups", 2)
+	n := g.N(l+".groups", g.max(2))
 	for i := 0; i < n; i++ {
 		grp := &message.DataPointGroup{}
 		if i == 0 {
@@ -225,7 +236,7 @@ func (g *Gen) Chunk(l string) *message.StreamChunk {
 		} else {
 			grp.DataIDOrAlias = message.DataIDAlias(g.U32(l + ".galias"))
 		}
-		for j := 0; j < 2-i; j++ {
+		for j := 0; j < g.max(2)-i; j++ {
 			grp.DataPoints = append(grp.DataPoints, &message.DataPoint{ElapsedTime: g.Nanos(l + ".elapsed"), Payload: g.Bytes(l + ".payload")})
 		}
 		c.DataPointGroups = append(c.DataPointGroups, grp)
@@ -376,7 +387,7 @@ func (g *Gen) Build(kind int, ext bool) message.Message {
 		return m
 	case 21:
 		m := &message.UpstreamChunkAck{StreamIDAlias: g.U32("alias"), DataIDAliases: g.DataIDAliases("aliases")}
-		n := g.N("results", 2)
+		n := g.N("results", g.max(2))
 		for i := 0; i < n; i++ {
 			res := &message.UpstreamChunkResult{SequenceNumber: g.U32("seq"), ResultCode: g.Code("code"), ResultString: g.Str("rs")}
 			if ext {
@@ -402,7 +413,7 @@ func (g *Gen) Build(kind int, ext bool) message.Message {
 		return m
 	case 24:
 		m := &message.DownstreamChunkAck{StreamIDAlias: g.U32("alias"), AckID: g.U32("ackid"), DataIDAliases: g.DataIDAliases("aliases")}
-		n := g.N("results", 2)
+		n := g.N("results", g.max(2))
 		for i := 0; i < n; i++ {
 			res := &message.DownstreamChunkResult{StreamIDOfUpstream: g.UUID("up"), SequenceNumberInUpstream: g.U32("seq"), ResultCode: g.Code("code"), ResultString: g.Str("rs")}
 			if ext {
